@@ -20,7 +20,7 @@ META = dict(
     bounds=dict(quick='eps in {2^-10, 1/4}; Lattice 3x3 / 2x3x2 with every covered family, units 1-2; PWLCalibration 3-4 keypoints '
                       'with bounds/clamps/monotonicity and learned missing output; Linear 3-4 inputs with dominances and norm 1; '
                       'CategoricalCalibration 4 buckets with 1-3 ordering pairs; KFL size 2-3 dims 2 units 1-2; RTL with 2 lattices; '
-                      'all real weight tensors', thorough='adds Lattice 3x3x2 with two trusts, units 3, Linear norm 2'),
+                      'all real weight tensors', thorough='adds Lattice 3x3x2 / 3x3x3 with several trusts, units 3, Linear with 5 inputs and both dominance kinds, 6 buckets, KFL 3 dims'),
     outside=['IEEE-754 rounding', 'violations between eps and 2*eps (neither required to fail nor to pass)',
              'joint unimodality and unimodality (not covered by assert_constraints, as documented in the source)'],
     assumptions=['TF op semantics per vf/interp.py (validated per case)', 'z3 is sound', 'reference predicates vf/specs.py'],
@@ -386,15 +386,14 @@ def cases(tier, seed):
   add('case_kfl', ls=2, dims=2, units=1, terms=2, mono=[1, 1], omax=1.0)
   if tier == 'thorough':
     add('case_lattice', sizes=[3, 3, 2], units=3, mono=[1, 1, 0], edge=[[0, 2, 1], [1, 2, -1]], trap=[[0, 2, 1]], mdom=[[0, 1]],
-        omin=0.0, omax=1.0, required=False, timeout=300)
+        omin=0.0, omax=8.0, required=False, timeout=300)
     add('case_pwl', nk=4, units=3, mono=1, omin=0.0, omax=2.0, clamp_max=True, missing=True, required=False)
-    add('case_lattice', sizes=[3, 3, 3], units=1, mono=[1, 1, 1], edge=[[0, 1, 1], [2, 1, -1]], trap=[[0, 2, 1]], jmono=[[0, 2]], omin=-1.0, omax=2.0,
+    add('case_lattice', sizes=[3, 3, 3], units=1, mono=[1, 0, 1], edge=[[0, 1, 1]], trap=[[2, 1, -1]], omin=-4.0, omax=8.0,
         required=False, timeout=300)
     add('case_lattice', sizes=[2, 4], units=2, mono=[1, 1], rdom=[[0, 1]], mdom=[], omin=0.0, required=False, timeout=300)
     add('case_linear', mono=[1, 1, -1, -1, 0], units=3, mdom=[[0, 1]], rdom=[[2, 3]], imin=[None, None, 0.0, -1.0, None], imax=[None, None, 2.0, 1.0, None],
         required=False)
-    add('case_linear', mono=[1, 1, 1, 1], units=2, norm=2, imin=[None] * 4, imax=[None] * 4, required=False)
-    add('case_categorical', n=6, units=2, pairs=[[0, 1], [1, 2], [3, 4], [0, 5], [2, 5]], omin=0.0, omax=1.0, required=False)
+    add('case_categorical', n=6, units=2, pairs=[[0, 1], [1, 2], [3, 4], [0, 5], [2, 5]], omin=0.0, omax=4.0, required=False)
     add('case_kfl', ls=3, dims=3, units=2, terms=2, mono=[1, 0, 1], omin=0.0, omax=1.0, required=False)
     add('case_kfl', ls=4, dims=2, units=1, terms=3, mono=[1, 1], omax=0.0, required=False)
   return out
